@@ -470,7 +470,7 @@ func (e *env) runWith(pctx sdk.Context, p *program, gasLimit uint64, traced bool
 	var res *evmtypes.MsgEthereumTxResponse
 	if traced {
 		o.tr = evmx.NewTracer()
-		res, err = evmx.SendTraced(cctx, e.s.App, tx, &rootTracer{Tracer: o.tr})
+		res, err = evmx.SendTraced(cctx, e.s.App, tx, newCreateTracer(o.tr))
 	} else {
 		res, err = evmx.Send(cctx, e.s.App, tx)
 	}
@@ -524,7 +524,7 @@ func (e *env) runWith(pctx sdk.Context, p *program, gasLimit uint64, traced bool
 
 // prune returns the program restricted to frames that were kept in the traced run.
 func prune(p *program, tr *evmx.Tracer) *program {
-	q := &program{addrs: p.addrs, meta: p.meta, nodes: p.nodes, ctxOf: p.ctxOf, inner: map[int]*inner{}, direct: p.direct}
+	q := &program{addrs: p.addrs, meta: p.meta, nodes: p.nodes, ctxOf: p.ctxOf, inner: map[int]*inner{}, direct: p.direct, create: p.create}
 	if len(tr.Frames) == 0 || !tr.Kept(0) {
 		return q
 	}
@@ -574,7 +574,7 @@ func prune(p *program, tr *evmx.Tracer) *program {
 // install puts the program's contracts in place: the root tree and the hook contracts of the hook tokens in use
 func (e *env) install(ctx sdk.Context, p *program) error {
 	if !p.direct {
-		if err := evmx.InstallTree(ctx, e.s.App, p.addrs[0], p.root); err != nil {
+		if err := e.installTreeX(ctx, p, p.addrs[0], p.root); err != nil {
 			return err
 		}
 	}
@@ -696,7 +696,24 @@ func (e *env) progText(p *program, tr *evmx.Tracer) (string, uint64) {
 				}
 				callc, ok := sum(n.PcStart, n.PcCall)
 				ci, hasFrame := frameOf[n.ID]
-				if ok && hasFrame && !bad[key{frame, uint64(n.PcCall)}] {
+				if p.create[n.ID] {
+					// CREATE: the op's own charge (32000 + memory) does not contain the forwarded gas; no stipend
+					stip = 0
+					words := uint64(0)
+					if len(n.OpPcs) > 0 {
+						words = (uint64(len(assembleX(n.Body, p.create))) + 31) / 32
+					}
+					an = 3*3 + 3 + 3*words + memCost(words) + 3*2 + 3 + 32000
+					if hasFrame && ok && !bad[key{frame, uint64(n.PcCall)}] {
+						callc += cost[key{frame, uint64(n.PcCall)}]
+						if callc != an {
+							e.cnt(fmt.Sprintf("cost:create-measured-%d-differs-from-analytic-%d", callc, an))
+						}
+					} else {
+						callc = an
+					}
+					e.cnt("constructor-frame")
+				} else if ok && hasFrame && !bad[key{frame, uint64(n.PcCall)}] {
 					callOp := cost[key{frame, uint64(n.PcCall)}]
 					fwd := tr.Frames[ci].Gas - stip
 					callc += callOp - fwd
@@ -883,6 +900,7 @@ func TestC09(t *testing.T) {
 	nProg := hx.N(300, 2000)
 	debug := os.Getenv("VERIF_DEBUG") != ""
 	dir := e.directed(rand.New(rand.NewSource(seed ^ 0x5eed)))
+	dir = append(dir, e.createPrograms(rand.New(rand.NewSource(seed^0xc7ea)))...)
 	dir = append(dir, e.directCalls(rand.New(rand.NewSource(seed^0xd1ec)))...)
 	for pi := 0; pi < nProg+len(dir); pi++ {
 		out.Reset()
